@@ -33,6 +33,7 @@ type Env struct {
 	selfAlloc0  string // $alloc at entry of the contract's function (for fresh())
 	noLocks     bool   // lock predicates are evaluated for a goroutine that holds no lock (opt anytime callbacks)
 	noOldSwitch bool
+	self        bool // the environment of the function's own contract (its ghost locals are visible)
 }
 
 func (e *Env) withState(st *State) *Env {
@@ -152,6 +153,13 @@ func (e *Env) lookup(x *Expr) SVal {
 	if e.local != nil {
 		if v, ok := e.local(name); ok {
 			return v
+		}
+	}
+	// ghost locals of the function under proof
+	if e.self && e.t.ct != nil {
+		if s, ok := e.t.ct.GhostLocal[name]; ok {
+			c := e.t.comp("GL."+name, s)
+			return SVal{S: e.inState(func() string { return e.t.get(c) }), Sort: s}
 		}
 	}
 	// ghost globals
@@ -657,6 +665,8 @@ func (e *Env) evalCall(x *Expr) SVal {
 		return SVal{S: e.inState(func() string { return t.bytesToStr(v.S) }), Sort: "Str"}
 	case "bitand":
 		return SVal{S: app("bit.and", e.evalInt(x.Args[0]), e.evalInt(x.Args[1])), Sort: "Int"}
+	case "bitor":
+		return SVal{S: app("bit.or", e.evalInt(x.Args[0]), e.evalInt(x.Args[1])), Sort: "Int"}
 	case "pow2":
 		return SVal{S: app("pow2", e.evalInt(x.Args[0])), Sort: "Int"}
 	case "shl": // shl(v, k) = v * 2^k for 0 <= k <= 255 (mathematical)
